@@ -799,6 +799,8 @@ func (c *EvalCtx) evalCall(e *Expr) CV {
 				}
 				vc.fact(B.Or(kept, B.Le(B.Add(nw.Ptr, nw.Cap), r.Base), B.Le(B.Add(r.Base, ext), nw.Ptr), B.Le(ext, B.Int(0))))
 			}
+			// Go's type invariant for a slice value: its array lies in user space
+			vc.fact(B.And(B.Le(B.Int(0), nw.Ptr), B.Le(B.Int(0), nw.Cap), B.Le(B.Add(nw.Ptr, nw.Cap), B.Big(maxAddr))))
 			vc.regions = append(vc.regions, Region{Base: nw.Ptr, Size: B.Ite(kept, B.Int(0), nw.Cap), What: "alloc", Writable: true})
 			return CV{VT{B.True()}, nil}
 		}
